@@ -94,6 +94,8 @@ func main() {
 			atomicityScenario(seed, workers, iters, &r, fail)
 		case "percommand-shared-config":
 			perCommandScenario(seed, workers, iters, &r, fail)
+		case "cache-route":
+			routeScenario(seed, workers, iters, &r, fail)
 		case "fresh-key-duplex":
 			freshKeyDuplexScenario(seed, workers, iters, &r, fail)
 		case "stream-duplex":
@@ -690,6 +692,71 @@ func secmanScenario(seed int64, workers, iters int, r *result, fail func(string,
 		}()
 	}
 	wg.Wait()
+	r.Ops = n
+}
+
+// ---- command routing under interleaved registration and invalidation ----------
+//
+// A client-session registration is Store(entry) followed by MapCommand(...): two
+// critical sections. Invalidators hit the same ids all the time, so invalidations land
+// between the two steps. Afterwards a DIFFERENT entry is stored under the id without
+// mapping any command for it: from then on a lookup by the old command key must not
+// find anything - a hit would route the old key to a session it was never mapped for.
+func routeScenario(seed int64, workers, iters int, r *result, fail func(string, ...interface{})) {
+	c := security.NewSessionCache()
+	key := &security.KeyInfo{Data: make([]byte, 32), Protocol: "AESGCM"}
+	const addr = "<10.0.0.3:9618>"
+	var stop int32
+	var swg sync.WaitGroup
+	for i := 0; i < 2; i++ {
+		swg.Add(1)
+		go func() {
+			defer swg.Done()
+			for atomic.LoadInt32(&stop) == 0 {
+				for w := 0; w < workers; w++ {
+					c.Invalidate(fmt.Sprintf("route-%d", w))
+				}
+				runtime.Gosched()
+			}
+		}()
+	}
+	var wg sync.WaitGroup
+	var mu sync.Mutex
+	n := 0
+	for w := 0; w < workers; w++ {
+		wg.Add(1)
+		go func(w int) {
+			defer wg.Done()
+			id := fmt.Sprintf("route-%d", w)
+			cmd := fmt.Sprintf("%d", 400+w)
+			bad := 0
+			for it := 0; it < iters && bad < 3; it++ {
+				first := security.NewSessionEntry(id, addr, key, nil, time.Now().Add(time.Hour), 0, "")
+				c.Store(first) // registration, step 1
+				if it%2 == 0 {
+					runtime.Gosched()
+				}
+				c.MapCommand("", addr, cmd, id) // registration, step 2
+				second := security.NewSessionEntry(id, addr, key, nil, time.Now().Add(time.Hour), 0, "")
+				c.Store(second) // a different session takes the id; nothing is mapped for it
+				for k := 0; k < 3; k++ {
+					if e, ok := c.LookupByCommand("", addr, cmd); ok && e == second {
+						bad++
+						fail("command key {%s,<%s>} mapped for an earlier session of id %s is routed to the session stored later under that id", addr, cmd, id)
+						break
+					}
+				}
+				c.Invalidate(id)
+				tick()
+				mu.Lock()
+				n++
+				mu.Unlock()
+			}
+		}(w)
+	}
+	wg.Wait()
+	atomic.StoreInt32(&stop, 1)
+	swg.Wait()
 	r.Ops = n
 }
 
